@@ -178,6 +178,23 @@ pub fn tags_for(input: &str) -> Vec<String> {
     if fmtwork::delimiter_nesting(input) >= fmtwork::COSTLY_NESTING {
         tags.push(format!("delimiter-nesting>={}", fmtwork::COSTLY_NESTING));
     }
+    // a quantifier whose parameter list contains a destructor (parses, but is rejected by desugaring)
+    {
+        let code: Vec<&e2::scan::Token> = tokens.iter().filter(|t| t.is_code()).collect();
+        let mut k = 0;
+        while k < code.len() {
+            if matches!(code[k].text(input), "forall" | "pi" | "sigma") {
+                let mut j = k + 1;
+                while j < code.len() && code[j].text(input) != "." {
+                    if code[j].kind == e2::scan::Kind::Dtor && !tags.contains(&"quantifier-with-destructor-parameter".to_string()) {
+                        tags.push("quantifier-with-destructor-parameter".into());
+                    }
+                    j += 1;
+                }
+            }
+            k += 1;
+        }
+    }
     for (i, t) in tokens.iter().enumerate() {
         if t.kind == e2::scan::Kind::BlockComment {
             // a block comment followed on the same line by more code
